@@ -256,10 +256,10 @@ fn cmd_check(id: &str, tier: Tier) -> i32 {
 
 fn fuzz_target_for(id: &str) -> Option<(&'static str, u64)> {
     match id {
-        "C01" | "C02" | "C03" | "C04" | "C05" | "C07" | "C08" | "C09" | "C14" => Some(("solve_oracles", 20_000)),
-        "C10" | "C11" | "C12" | "C13" => Some(("async_sched", 20_000)),
-        "C18" | "C19" => Some(("containers", 300_000)),
-        "C15" | "C16" | "C20" => Some(("snapshot_cache", 30_000)),
+        "C01" | "C02" | "C03" | "C04" | "C05" | "C07" | "C08" | "C09" | "C14" => Some(("solve_oracles", 15_000)),
+        "C10" | "C11" | "C12" | "C13" => Some(("async_sched", 10_000)),
+        "C18" | "C19" => Some(("containers", 15_000)),
+        "C16" | "C20" => Some(("snapshot_cache", 15_000)),
         _ => None,
     }
 }
